@@ -121,6 +121,10 @@ func (f *RequiredField) DoRead(r io.ReadSeeker, pg Page) (io.Reader, []int, erro
 			return nil, nil, err
 		}
 
+		if err := checkDataPage(ph, false, false); err != nil {
+			return nil, nil, err
+		}
+
 		sizes = append(sizes, int(ph.DataPageHeader.NumValues))
 
 		data, err := pageData(r, ph, pg)
@@ -285,6 +289,10 @@ func (f *OptionalField) DoRead(r io.ReadSeeker, pg Page) (io.Reader, []int, erro
 			return nil, nil, err
 		}
 
+		if err := checkDataPage(ph, f.MaxLevels.Def > 0, f.repeated); err != nil {
+			return nil, nil, err
+		}
+
 		data, err := pageData(rc, ph, pg)
 		if err != nil {
 			return nil, nil, err
@@ -355,6 +363,29 @@ func (r *readCounter) Read(p []byte) (int, error) {
 	n, err := r.r.Read(p)
 	r.n += int64(n)
 	return n, err
+}
+
+// checkDataPage makes sure a page is one this package can decode: a v1 data
+// page with PLAIN values and, for the level streams the column has, RLE levels.
+func checkDataPage(ph *sch.PageHeader, hasDefs, hasReps bool) error {
+	if ph.Type != sch.PageType_DATA_PAGE || ph.DataPageHeader == nil {
+		return fmt.Errorf("unsupported page type: %s", ph.Type)
+	}
+
+	h := ph.DataPageHeader
+	if h.Encoding != sch.Encoding_PLAIN {
+		return fmt.Errorf("unsupported encoding: %s", h.Encoding)
+	}
+
+	if hasDefs && h.DefinitionLevelEncoding != sch.Encoding_RLE {
+		return fmt.Errorf("unsupported definition level encoding: %s", h.DefinitionLevelEncoding)
+	}
+
+	if hasReps && h.RepetitionLevelEncoding != sch.Encoding_RLE {
+		return fmt.Errorf("unsupported repetition level encoding: %s", h.RepetitionLevelEncoding)
+	}
+
+	return nil
 }
 
 func pageData(r io.Reader, ph *sch.PageHeader, pg Page) ([]byte, error) {
